@@ -47,7 +47,11 @@ let out_of = function
 
 (* returns (expected observable, oracle verdict on the observed outputs) *)
 let run (input : S.t) (observed : S.t) : S.t * string =
-  let h = match input with S.L (S.A "hist" :: ops) -> List.map op_of ops | _ -> failwith "c19: input" in
+  (* (reuse) tells the harness to resolve parsed subscription requests again instead of parsing anew:
+     the specification does not know the difference *)
+  let h = match input with
+    | S.L (S.A "hist" :: ops) -> List.map op_of (List.filter (function S.L [S.A "reuse"] -> false | _ -> true) ops)
+    | _ -> failwith "c19: input" in
   let expected =
     match Model.run [] h with
     | None -> S.L [S.A "panic"]
